@@ -362,9 +362,11 @@ class pcovar(ParametricSpectrum):
 
     def __call__(self):
         from spectrum import arma2psd
-        ar, _e = arcovar(self.data, self.ar_order)
+        ar, e = arcovar(self.data, self.ar_order)
         self.ar = ar
-        psd = arma2psd(A=ar, T=self.sampling, NFFT=self.NFFT)
+        # white-noise variance: forward prediction-error energy per sample
+        self.rho = e / float(self.N - self.ar_order)
+        psd = arma2psd(A=ar, rho=self.rho, T=self.sampling, NFFT=self.NFFT)
 
         if self.datatype == 'real':
             if self.NFFT % 2 == 0:
